@@ -116,12 +116,10 @@ fn el_line(e: &El) -> String {
     }
 }
 
-fn group_section(ctx: &Ctx, out: &mut String, rng: &mut rand_chacha::ChaCha20Rng, shard: usize, nshards: usize, scale: usize) {
+fn group_section(ctx: &Ctx, out: &mut String, rng: &mut rand_chacha::ChaCha20Rng, shard: usize, nshards: usize, scale: usize, strings: &[(Vec<u8>, &'static str)]) {
     let c = &ctx.c;
     let f = &c.f;
     // decoding verdicts and re-encodings
-    let mut zr = rng_for(ctx.seed, "C12-dec", 0, 0);
-    let strings = decode_strings(ctx, &mut zr, 20, scale * 4, true);
     for (i, (s, _)) in strings.iter().enumerate() {
         if i % nshards != shard {
             continue;
@@ -236,6 +234,9 @@ pub fn run(ctx: &Ctx, rec: &mut Rec, out_path: &str) {
     let nshards = 16usize; // fixed: the transcript must not depend on the machine
     let scale = ctx.scale(1500, 12_000);
     let shards: std::sync::Mutex<Vec<(usize, String)>> = std::sync::Mutex::new(Vec::new());
+    // the structured decoder strings are the same for every shard (each shard takes its slice)
+    let mut zr = rng_for(ctx.seed, "C12-dec", 0, 0);
+    let strings = decode_strings(ctx, &mut zr, 20, scale * 4, true);
     // run the 16 shards on however many workers exist
     par(rec, |w, n, rec| {
         for shard in 0..nshards {
@@ -247,7 +248,7 @@ pub fn run(ctx: &Ctx, rec: &mut Rec, out_path: &str) {
             field_section::<Fq>(ctx, &mut out, &mut rng, shard, nshards, scale);
             field_section::<Fr>(ctx, &mut out, &mut rng, shard, nshards, scale);
             field_section::<Fp>(ctx, &mut out, &mut rng, shard, nshards, scale);
-            group_section(ctx, &mut out, &mut rng, shard, nshards, scale);
+            group_section(ctx, &mut out, &mut rng, shard, nshards, scale, &strings);
             for line in out.lines() {
                 rec.evals += 1;
                 rec.distinct.insert(h64(&line));
